@@ -637,6 +637,47 @@ fn pow2_sweep(m: &mut M, n: u64) {
     }
 }
 
+/// EVERY exponent of the format for the operations whose code manipulates exponents or has exactness claims at
+/// powers of two: exp2 at every integer and half-integer, log2 / ln / sqrt / cbrt / recip of every power of two,
+/// scaling of a generic value by every power of two (product and quotient), conversion of every power of two to f32
+fn exponent_sweep(m: &mut M, n: u64) {
+    let mut deal = Deal { idx: 0, n: n.max(1), slice: m.slice };
+    for k in -1085..=1030 {
+        if !deal.take() {
+            continue;
+        }
+        m.group("lattice");
+        m.load(0, k as f64, 0.0);
+        m.call("elem", "exp2", "inh", Some(1), &[A::R(0)]);
+        m.load(0, k as f64 + 0.5, 0.0);
+        m.call("elem", "exp2", "inh", Some(1), &[A::R(0)]);
+        if (-1074..=1023).contains(&k) {
+            let p = pow2(k);
+            if !m.load(2, p, 0.0) {
+                continue;
+            }
+            m.call("elem", "log2", "inh", Some(1), &[A::R(2)]);
+            m.call("elem", "ln", "inh", Some(1), &[A::R(2)]);
+            m.call("elem", "sqrt", "inh", Some(1), &[A::R(2)]);
+            m.call("elem", "cbrt", "inh", Some(1), &[A::R(2)]);
+            m.call("arith", "recip", "inh", Some(1), &[A::R(2)]);
+            m.call("conv", "to_f32", "From_v", None, &[A::R(2)]);
+            // a generic two-word value scaled by 2^k, both ways, while everything stays inside the stated ranges
+            if k.abs() <= 440 {
+                m.load(3, 1.2345678901234567, 3.1e-17 * 0.7);
+                if !m.tf(3).is_valid() {
+                    m.load(3, 1.2345678901234567, 1e-17);
+                }
+                m.call("arith", "mul", "vv", Some(1), &[A::R(3), A::R(2)]);
+                m.call("arith", "mul", "vv", Some(1), &[A::R(3), A::F(p)]);
+                m.call("arith", "div", "vv", Some(1), &[A::R(3), A::R(2)]);
+                m.call("arith", "div", "vv", Some(1), &[A::R(3), A::F(p)]);
+                m.call("arith", "div", "vv", Some(1), &[A::F(p), A::R(3)]);
+            }
+        }
+    }
+}
+
 pub fn run(m: &mut M, _r: &mut Rng, family: &str, n: u64) -> bool {
     match family {
         "lattice_add" => binary(m, "add", n, &[(0, 0), (-1000, 0), (999, 0), (-1020, 0)]),
@@ -650,6 +691,7 @@ pub fn run(m: &mut M, _r: &mut Rng, family: &str, n: u64) -> bool {
         "lattice_rem" => rems(m, n),
         "exp_nodes" => exp_nodes(m, n),
         "pow2_sweep" => pow2_sweep(m, n),
+        "exponent_sweep" => exponent_sweep(m, n),
         "lattice_pow" => powers(m, n),
         "lattice_exp" => functions(m, n, "exp"),
         "lattice_log" => functions(m, n, "log"),
